@@ -4,7 +4,7 @@
    one event (Acq/Rel R|W, Rd/Wr Hdr|Entries, CallUser) of one thread; how often a repeated part runs and what a write does
    are chosen by the schedule entry, so "for all schedules" covers every data-dependent control flow and every effect. *)
 From Coq Require Import List ZArith Bool.
-From V Require Import Lib.Enc Gen.SafeKVSkel Model.SafeKV Proofs.SafeKVInv Proofs.SafeKVConc Proofs.SafeKVSeq Proofs.SafeKVSkelOk.
+From V Require Import Lib.Enc Gen.SafeKVSkel Model.SafeKV Run.C12 Proofs.SafeKVInv Proofs.SafeKVConc Proofs.SafeKVSeq Proofs.SafeKVSkelOk Proofs.SafeKVExec Proofs.SafeKVRun.
 Import ListNotations.
 
 (* the skeletons extracted from the current mapz/safekv.go and mapz/iter.go obey the lock discipline (all of them, also
@@ -55,3 +55,16 @@ Print Assumptions c12_setnx_unique.
 Theorem c12_setx_never_creates : forall m k v k', has (fst (sem (CSetX k v) m)) k' = true -> has m k' = true.
 Proof. exact setx_never_creates. Qed.
 Print Assumptions c12_setx_never_creates.
+
+(* every method, walked over its generated skeleton with the effect table (how often a repeated part runs, what a write does,
+   what is returned from what the reads observed) against a private map, computes exactly the plain-map specification:
+   for every call, every map, every operation sequence — the model output of the run (sub 0) is the specification output (sub 1) *)
+Theorem c12_exec_call_is_sem : forall c m, exec_call c m = Some (sem c m).
+Proof. exact exec_call_is_sem. Qed.
+Print Assumptions c12_exec_call_is_sem.
+Theorem c12_run_model_is_spec : forall cs m, run_model cs m = run_spec cs m.
+Proof. exact run_model_is_spec. Qed.
+Print Assumptions c12_run_model_is_spec.
+Theorem c12_entry_seq_model_is_spec : forall cap ops, entry 0 (0 :: cap :: ops)%Z = entry 1 (0 :: cap :: ops)%Z.
+Proof. exact entry_seq_model_is_spec. Qed.
+Print Assumptions c12_entry_seq_model_is_spec.
